@@ -1160,3 +1160,34 @@ def match_end(e, args, fr, m):
 @contract(r"^Match::<'_>::as_str$")
 def match_as_str(e, args, fr, m):
     return e.load(args[0]).fields[2]
+
+
+# ------------------------------------------------------------------------------------------------ integer helpers
+@contract(r'^<impl (u8|u16|u32|u64|u128|usize)>::is_power_of_two$')
+def int_is_power_of_two(e, args, fr, m):
+    x = e.force(args[0])
+    if x.concrete:
+        return x.v > 0 and x.v & (x.v - 1) == 0
+    return z3.And(x.v != 0, (x.v & (x.v - 1)) == 0)
+
+
+@contract(r'^<impl (u8|u16|u32|u64|u128|usize|i32|i64)>::(checked_add|checked_sub|checked_mul)$')
+def int_checked(e, args, fr, m):
+    a, b = e.force(args[0]), e.force(args[1])
+    op = {'checked_add': 'AddWithOverflow', 'checked_sub': 'SubWithOverflow', 'checked_mul': 'MulWithOverflow'}[m.group(2)]
+    r = e.binop(op, a, b)
+    val, ovf = r.fields
+    if e.branch(ovf):
+        return NONE
+    return some(val)
+
+
+@contract(r'^<impl (u8|u16|u32|u64|u128|usize|i32|i64)>::(wrapping_add|wrapping_sub|wrapping_mul|saturating_sub)$')
+def int_wrapping(e, args, fr, m):
+    a, b = e.force(args[0]), e.force(args[1])
+    if m.group(2) == 'saturating_sub':
+        r = e.binop('SubWithOverflow', a, b)
+        if e.branch(r.fields[1]):
+            return Int(0, a.ty)
+        return r.fields[0]
+    return e.binop({'wrapping_add': 'Add', 'wrapping_sub': 'Sub', 'wrapping_mul': 'Mul'}[m.group(2)], a, b)
